@@ -374,7 +374,8 @@ class Categorize(Factory, Container):
             else:
                 raise JsonFormatException(json, "Categorize.bins")
 
-            out = Categorize.ed(entries, contentType, **bins)
+            # as one dict, not as keyword arguments: a category may be called 'entries' or 'contentType'
+            out = Categorize.ed(entries, contentType, binsAsDict=bins)
             out.quantity.name = nameFromParent if name is None else name
             return out.specialize()
 
